@@ -45,6 +45,8 @@ FRAMES = [
     ("whileelse", "i = 0\nwhile i < 2:\n    i += 1\n{B}\nelse:\n{E}", "loop"),
     ("for", "for j in range(2):\n{B}", "loop"),
     ("forelse", "for j, k in [(0, 1), (2, 3)]:\n{B}\nelse:\n{E}", "loop"),
+    ("loopif", "for j in range(3):\n    if j == 1:\n{BB}\n    else:\n{EE}", "loopboth"),
+    ("classcond", "class C:\n    if a > 99:\n        a = 0\n    for b in []:\n        pass\n{B}\n    r = (a, b)\na = C.r[0]", "class"),
     ("def", "def f(p, q=a, *r, s=1, **t):\n    a = p + q + s\n{B}\n    return a\na = f(a)", "func"),
     ("defglobal", "def f():\n    global a\n{B}\nf()", "funcg"),
     ("closure", "def f(a):\n    def g():\n        nonlocal a\n{BB}\n        return a\n    return g() + a\na = f(a)", "func2"),
@@ -71,10 +73,13 @@ def stmts(size, ctx):
                 yield s
         return
     for name, tpl, opens in FRAMES:
-        has_else = "{E}" in tpl
+        has_else = "{E}" in tpl or "{EE}" in tpl
         rest = size - 1
         if opens == "loop":
             bctx, ectx = ctx | {"loop"}, ctx
+        elif opens == "loopboth":
+            # both holes are inside the frame's own loop
+            bctx, ectx = ctx | {"loop"}, ctx | {"loop"}
         elif opens in ("func", "funcg", "func2"):
             bctx, ectx = frozenset({"func"}), ctx
         elif opens == "class":
@@ -89,7 +94,7 @@ def stmts(size, ctx):
                 body = ind(bsrc, 2 if "{BB}" in tpl else 1)
                 if has_else:
                     for ek, esrc in blocks(ne, ectx):
-                        yield "%s[%s|%s]" % (name, bk, ek), tpl.replace("{B}", body).replace("{E}", ind(esrc, 1))
+                        yield "%s[%s|%s]" % (name, bk, ek), tpl.replace("{B}", body).replace("{BB}", body).replace("{E}", ind(esrc, 1)).replace("{EE}", ind(esrc, 2))
                 else:
                     yield "%s[%s]" % (name, bk), tpl.replace("{B}", body).replace("{BB}", body)
 
